@@ -39,6 +39,7 @@ class Ctx:
         self.replayed = 0
         self.budget_s = float(os.environ.get('VP_BUDGET', '300' if tier == 'quick' else '2700'))
         self.extra_cov = {}
+        self.level = 'model_checking'
         import threading
         self.lock = threading.RLock()
 
@@ -254,7 +255,7 @@ class Ctx:
                     fh.write(json.dumps(o, sort_keys=True, default=str) + '\n')
         except OSError:
             pass
-        ev = dict(property_id=self.prop, tier=self.tier, seed=self.seed, level='model_checking',
+        ev = dict(property_id=self.prop, tier=self.tier, seed=self.seed, level=self.level,
                   coverage=cov, assumptions=self.assumptions, wall_s=round(wall, 1),
                   violations=len(self.violations))
         evdir = os.environ.get('VP_EVIDENCE_DIR') or os.path.join(VERIF, 'evidence')
